@@ -301,7 +301,10 @@ class Logistic(BaseDatafit):
             X_data, X_indptr, X_indices, len(y)) ** 2 / (4 * len(y))
 
     def value(self, y, w, Xw):
-        return np.log(1. + np.exp(- y * Xw)).sum() / len(y)
+        # log(1 + exp(-t)) = max(-t, 0) + log1p(exp(-|t|)): exp(-t) overflows for large
+        # negative margins although the loss itself (about -t) is finite
+        yXw = y * Xw
+        return (np.maximum(-yXw, 0.) + np.log1p(np.exp(-np.abs(yXw)))).sum() / len(y)
 
     def gradient_scalar(self, X, y, w, Xw, j):
         return (- X[:, j] @ (y * sigmoid(- y * Xw))) / len(y)
